@@ -407,7 +407,39 @@ class RegisterHandler(Unit):
         return None
 
     def replay(self, model, label):
-        return dict(confirmed=False, call='register_exception_handler', observed='')
+        return replay_register()
+
+    def bounded(self, rng, tier):
+        rp = replay_register()
+        return dict(name='C14.register.concrete', evaluations=rp['n'], bound='registration sequences of 1..4 handlers, early / not, via the '
+                    'method and via the decorator, on a real Connection',
+                    failures=[dict(call=rp['call'], observed=rp['observed'], witness='register')] if rp['confirmed'] else [])
+
+
+def replay_register():
+    import itertools
+    n = 0
+    for ln in range(1, 5):
+        for flags in itertools.product((False, True), repeat=ln):
+            for via in ('method', 'decorator'):
+                n += 1
+                c = Connection('localhost', 25565)
+                want = []
+                for k, early in enumerate(flags):
+                    f = (lambda k: (lambda e, i: None))(k)
+                    types_ = (ValueError,) if k % 2 else ()
+                    if via == 'method':
+                        c.register_exception_handler(f, *types_, early=early)
+                    else:
+                        r = c.exception_handler(*types_, early=early)(f)
+                        if r is not f:
+                            return dict(confirmed=True, n=n, call='@exception_handler', observed='the decorator does not return the function')
+                    want = [(f, types_)] + want if early else want + [(f, types_)]
+                if c._exception_handlers != want:
+                    return dict(confirmed=True, n=n, call='%d handlers registered via %s with early=%r' % (ln, via, flags),
+                                observed='handler order is %r, expected positions %r' % (
+                                    [want.index(h) if h in want else '?' for h in c._exception_handlers], list(range(len(want)))))
+    return dict(confirmed=False, n=n, call='registration sequences', observed='conform')
 
 
 class HandlerDecorator(Unit):
@@ -436,7 +468,7 @@ class HandlerDecorator(Unit):
         return None
 
     def replay(self, model, label):
-        return dict(confirmed=False, call='Connection.exception_handler decorator', observed='')
+        return replay_register()
 
 
 class ConnProbe(object):
